@@ -133,6 +133,9 @@ def generate(rng, tier):
         # one growing buffer.  Shared state between the calls (attributes written by a call, padding applied in
         # place) can make a later round's value depend on what an earlier round looked at.
         case["rounds_mode"] = bool(D.n_orderings(case["pop"]) <= 700 and rng.chance(0.3))
+        # ... and the object may have served a larger population before (its N re-assigned, as user code does when a
+        # card bound is revised): what it computed then must not leak into this audit
+        case["object_used_before"] = bool(case["rounds_mode"] and rng.chance(0.5))
         if case["rounds_mode"] and len(case["lengths"]) < 2 and case["N"] >= 2:
             case["lengths"] = sorted(set(case["lengths"]) | {rng.randint(1, case["N"] - 1)})
     if kind == "exact-iid":
@@ -247,8 +250,15 @@ def execute(case):
             out.probe("rounds on one test object and one buffer")
             lens = sorted(case["lengths"])
             dists = {n: {} for n in lens}
+            earlier = sorted(pop)
             for o in orders:
-                t1 = D.make_test(ns, cfg, N)
+                if case.get("object_used_before"):
+                    t1 = D.make_test(ns, cfg, N + 12)
+                    for n in lens:
+                        _observe(out, t1, np.array(earlier[:n], dtype=float), st, raw=True)
+                    t1.N = N
+                else:
+                    t1 = D.make_test(ns, cfg, N)
                 buf = np.array(o, dtype=float)
                 for n in lens:
                     m = _observe(out, t1, buf[:n], st, raw=True)
